@@ -44,6 +44,8 @@ FLIP = {"==": "==", "!=": "!=", "<": ">", ">": "<", "<=": ">=", ">=": "<="}
 MUTATORS = {"append", "extend", "update", "add", "clear", "pop", "remove", "insert", "discard", "popleft", "sort",
             "reverse", "setdefault", "put_nowait", "merge"}
 VIEW_FUNCS = {"memoryview", "bytes", "bytearray"}
+# documented constants of the libraries the package uses (trusted base)
+LIBRARY_CONSTANTS = {"Crypto.Cipher.AES.block_size": 16, "hashlib.md5.digest_size": 16, "hashlib.sha256.digest_size": 32}
 
 
 def const(v):
@@ -152,6 +154,67 @@ def show(t, depth=0) -> str:
     return f"{k}(…)"
 
 
+_STRUCT_W = {"B": 1, "b": 1, "H": 2, "h": 2, "I": 4, "i": 4, "L": 4, "l": 4, "Q": 8, "q": 8, "x": 1, "c": 1, "?": 1}
+
+
+def struct_fields(fmt: str):
+    """[(offset, width, code)] of a standard-size struct format with explicit byte order, or None."""
+    if not fmt or fmt[0] not in "<>!":
+        return None
+    out, off, i, n = [], 0, 1, ""
+    body = fmt[1:].replace(" ", "")
+    for ch in body:
+        if ch.isdigit():
+            n += ch
+            continue
+        if ch not in _STRUCT_W or ch in "c?":
+            return None
+        for _ in range(int(n) if n else 1):
+            if ch != "x":
+                out.append((off, _STRUCT_W[ch], ch))
+            off += _STRUCT_W[ch]
+        n = ""
+    return (out, off) if not n else None
+
+
+def field_read(value: Term, i) -> Optional[Term]:
+    """Canonical form of element i of struct.unpack(fmt, X) / struct.unpack_from(fmt, X, off): a one-byte field is X[k], a wider
+    one int.from_bytes(X[a:b], order) - the same term an int.from_bytes spelling of the read produces."""
+    if isinstance(value, tuple) and value and value[0] == "call" and value[1] == ("ext", "divmod") and len(value[2]) == 2 and i in (0, 1) and not value[3]:
+        return ("bin", "//" if i == 0 else "%", value[2][0], value[2][1])
+    if not (isinstance(value, tuple) and value and value[0] == "call" and value[1][0] == "ext"
+            and value[1][1] in ("struct.unpack", "struct.unpack_from") and len(value[2]) >= 2 and isinstance(i, int)):
+        return None
+    fmt = value[2][0]
+    if not (is_const(fmt) and isinstance(fmt[1], str)):
+        return None
+    sf = struct_fields(fmt[1])
+    if sf is None or not (0 <= i < len(sf[0])):
+        return None
+    fields, total = sf
+    off, w, code = fields[i]
+    buf = value[2][1]
+    order = "little" if fmt[1][0] == "<" else "big"
+    kw = dict(value[3])
+    if value[1][1] == "struct.unpack_from":
+        base = value[2][2] if len(value[2]) > 2 else kw.get("offset", const(0))
+    else:
+        base = const(0)
+
+    def plus(t, k):
+        if is_const(t) and isinstance(t[1], int):
+            return const(t[1] + k)
+        return t if k == 0 else ("bin", "+", t, const(k))
+    if w == 1 and code == "B":
+        return ("sub", buf, plus(base, off))
+    if value[1][1] == "struct.unpack" and len(fields) == 1 and off == 0 and w == total:
+        src = buf
+    else:
+        src = ("slice", buf, plus(base, off), plus(base, off + w), None)
+    kws = (("signed", const(True)),) if code.islower() else ()
+    return ("call", ("ext", "int.from_bytes"), (src, const(order)), kws)
+
+
 def subterms(t):
     """All sub-terms, pre-order."""
     todo = [t]
@@ -231,6 +294,8 @@ class TermAnalysis(Analysis):
             if d is not None:
                 self.defaults[p.arg] = d
         self.assigned = self._assigned_names(fn.node)
+        self._inl: List[tuple] = []          # (kind, pc, exc) collected while evaluating one statement / test
+        self.inline_depth = 0
 
     # -------------------------------------------------------------- setup
     @staticmethod
@@ -299,11 +364,33 @@ class TermAnalysis(Analysis):
         """Inside a try body, any statement that calls / indexes / awaits may raise each class the try handles
         (so that every handler is analysed).  Nothing is claimed about which exceptions are actually possible."""
         eng = self.engine
-        if eng is None or not eng.try_stack or isinstance(node, (ast.Raise, ast.FunctionDef, ast.AsyncFunctionDef, ast.ClassDef)):
-            return []
-        if not any(isinstance(n, (ast.Call, ast.Subscript, ast.Await, ast.BinOp)) for n in ast.walk(node)):
-            return []
         out = []
+        if isinstance(node, (ast.FunctionDef, ast.AsyncFunctionDef, ast.ClassDef)):
+            return out
+        # raises of helpers that are inlined (functions the rules do not know): dry evaluation on a copy
+        if any(isinstance(n, ast.Call) for n in ast.walk(node)):
+            saved_rec, self.record = self.record, False
+            saved_inl, self._inl = self._inl, []
+            try:
+                st = state.copy()
+                if isinstance(node, ast.stmt):
+                    for ch in ast.iter_child_nodes(node):
+                        if isinstance(ch, ast.expr) and not (isinstance(node, (ast.Assign, ast.AugAssign, ast.AnnAssign)) and isinstance(getattr(ch, "ctx", None), ast.Store)):
+                            try:
+                                self.ev(ch, st)
+                            except AnalysisError:
+                                pass
+                else:
+                    self.ev(node, st)
+                for kind, pc, exc in self._inl:
+                    if kind == "raise":
+                        out.append((exc, State(state.env, state.pc + tuple(pc))))
+            finally:
+                self.record, self._inl = saved_rec, saved_inl
+        if eng is None or not eng.try_stack or isinstance(node, ast.Raise):
+            return out
+        if not any(isinstance(n, (ast.Call, ast.Subscript, ast.Await, ast.BinOp)) for n in ast.walk(node)):
+            return out
         for names in eng.try_stack[-1:]:
             for n in names:
                 out.append((n, state))
@@ -316,6 +403,15 @@ class TermAnalysis(Analysis):
 
     def stmt(self, node, state: State) -> State:
         st = state.copy()
+        self._inl = []
+        st = self._stmt(node, st)
+        for kind, pc, _exc in self._inl:
+            if kind == "normal" and pc:
+                st.pc = st.pc + tuple(pc)
+        self._inl = []
+        return st
+
+    def _stmt(self, node, st: State) -> State:
         if isinstance(node, ast.Assign):
             v = self.ev(node.value, st)
             for t in node.targets:
@@ -365,13 +461,14 @@ class TermAnalysis(Analysis):
     def assign(self, target, value: Term, st: State):
         if isinstance(target, ast.Name):
             st.env[target.id] = value
+            self.terms_at[target] = value
         elif isinstance(target, (ast.Tuple, ast.List)):
             if value[0] in ("tuple", "list") and len(value[1]) == len(target.elts):
                 for t, v in zip(target.elts, value[1]):
                     self.assign(t, v, st)
             else:
                 for i, t in enumerate(target.elts):
-                    self.assign(t, ("item", value, i), st)
+                    self.assign(t, field_read(value, i) or ("item", value, i), st)
         elif isinstance(target, ast.Attribute):
             k = self.key_of(target)
             if k:
@@ -390,7 +487,12 @@ class TermAnalysis(Analysis):
     # -------------------------------------------------------------- branches
     def branch(self, test, truth, state: State):
         st = state.copy()
+        self._inl = []
         c = self.ev(test, st)
+        for kind, pc, _exc in self._inl:
+            if kind == "normal" and pc:
+                st.pc = st.pc + tuple(pc)
+        self._inl = []
         if is_const(c) and isinstance(c[1], (bool, int, type(None))):
             if bool(c[1]) != truth:
                 return None
@@ -437,6 +539,29 @@ class TermAnalysis(Analysis):
                     k = self.key_of(x.func.value)
                     if k:
                         body_assigned.add(k)
+        # self attributes written by helpers the rules do not know (extracted by a refactoring) are loop-carried too
+        if self.fn is not None and self.param_names and self.fn.kind in ("method", "classmethod", "property", "setter"):
+            from .helpers import unknown_callee, with_helpers
+            recv = self.param_names[0]
+            for n in node.body + getattr(node, "orelse", []):
+                for x in ast.walk(n):
+                    if isinstance(x, ast.Call) and isinstance(x.func, ast.Attribute) and isinstance(x.func.value, ast.Name) and x.func.value.id == recv:
+                        t = unknown_callee(self.prog, self.fn, x)
+                        if t is None:
+                            continue
+                        for h in with_helpers(self.prog, t):
+                            if not h.params:
+                                continue
+                            for y in ast.walk(h.node):
+                                tgt = None
+                                if isinstance(y, ast.Attribute) and isinstance(y.ctx, ast.Store):
+                                    tgt = y
+                                elif isinstance(y, ast.Subscript) and isinstance(y.ctx, ast.Store) and isinstance(y.value, ast.Attribute):
+                                    tgt = y.value
+                                elif isinstance(y, ast.Call) and isinstance(y.func, ast.Attribute) and y.func.attr in MUTATORS and isinstance(y.func.value, ast.Attribute):
+                                    tgt = y.func.value
+                                if tgt is not None and isinstance(tgt.value, ast.Name) and tgt.value.id == h.params[0]:
+                                    body_assigned.add(f"{recv}.{tgt.attr}")
         for k in body_assigned:
             st.env[k] = ("loopvar", k, node.lineno)
         return st
@@ -507,6 +632,8 @@ class TermAnalysis(Analysis):
                         pass
                 return ("global", f"{q}.{name}")
             else:
+                if f"{q}.{name}" in LIBRARY_CONSTANTS:
+                    return const(LIBRARY_CONSTANTS[f"{q}.{name}"])
                 return ("global", f"{q}.{name}")
         return ("attr", base, name)
 
@@ -551,6 +678,10 @@ class TermAnalysis(Analysis):
             idx = self.ev(e.slice, st)
             if base[0] in ("tuple", "list") and is_const(idx) and isinstance(idx[1], int) and -len(base[1]) <= idx[1] < len(base[1]):
                 return base[1][idx[1]]
+            if is_const(idx) and isinstance(idx[1], int):
+                fr = field_read(base, idx[1])
+                if fr is not None:
+                    return fr
             return ("sub", base, idx)
         if isinstance(e, ast.BinOp):
             a, b = self.ev(e.left, st), self.ev(e.right, st)
@@ -609,11 +740,15 @@ class TermAnalysis(Analysis):
             return v
         if isinstance(e, ast.JoinedStr):
             parts = []
+            plain = True
             for v in e.values:
                 if isinstance(v, ast.FormattedValue):
                     parts.append(self.ev(v.value, st))
+                    plain = plain and v.format_spec is None and v.conversion == -1
                 else:
                     parts.append(self.ev(v, st))
+            if plain and all(is_const(x) and isinstance(x[1], (str, int)) and not isinstance(x[1], bool) for x in parts):
+                return const("".join(str(x[1]) for x in parts))
             return ("fstr", tuple(parts))
         if isinstance(e, ast.FormattedValue):
             return self.ev(e.value, st)
@@ -652,6 +787,134 @@ class TermAnalysis(Analysis):
                 self._bind_bound(t, st)
 
     def _call(self, e: ast.Call, st: State) -> Term:
+        t = self._call0(e, st)
+        if t[0] == "call" and t[1] == ("ext", "len") and len(t[2]) == 1 and not t[3] and t[2][0][0] in ("tuple", "list") \
+                and not any(x[0] == "starred" for x in t[2][0][1]):
+            return const(len(t[2][0][1]))
+        if t[0] == "call" and t[1] == ("ext", "len") and len(t[2]) == 1 and not t[3] and is_const(t[2][0]) and isinstance(t[2][0][1], (bytes, str)):
+            return const(len(t[2][0][1]))
+        if t[0] == "call" and t[1] == ("ext", "int.from_bytes") and t[3]:
+            kw = dict(t[3])
+            if "byteorder" in kw and len(t[2]) == 1:
+                t = ("call", t[1], t[2] + (kw.pop("byteorder"),), tuple(sorted(kw.items())))
+            elif "bytes" in kw and not t[2] and "byteorder" in kw:
+                t = ("call", t[1], (kw.pop("bytes"), kw.pop("byteorder")), tuple(sorted(kw.items())))
+            if dict(t[3]).get("signed") == const(False):
+                t = ("call", t[1], t[2], tuple(kv for kv in t[3] if kv[0] != "signed"))
+        if t[0] == "call" and t[1][0] == "func" and t[1][1] in self.prog.funcs and not self.prog.is_known(t[1][1]):
+            r = self.inline(e, t, st)
+            if r is not None:
+                return r
+        return t
+
+    def inline(self, e: ast.Call, t: Term, st: State) -> Optional[Term]:
+        """See through a helper the rules do not know (extracted by a refactoring): its return value replaces the call,
+        its guard conditions join the caller's path condition, its raises become raises of the calling statement and
+        its stores to `self` / mutated arguments are applied to the caller's environment."""
+        callee = self.prog.funcs[t[1][1]]
+        if self.inline_depth >= 4 or callee.qual == self.fn.qual or callee.is_async and any(isinstance(n, (ast.Yield, ast.YieldFrom)) for n in ast.walk(callee.node)):
+            return None
+        amap = bind_args(callee, t[2], t[3])
+        # defaults for parameters that were not passed
+        a = callee.node.args
+        pos = a.posonlyargs + a.args
+        for p, d in list(zip(pos[len(pos) - len(a.defaults):], a.defaults)) + [(p, d) for p, d in zip(a.kwonlyargs, a.kw_defaults) if d is not None]:
+            if p.arg not in amap and isinstance(d, ast.Constant):
+                amap[p.arg] = const(d.value)
+        try:
+            sub = summarize(self.prog, callee, amap, depth=self.inline_depth + 1)
+        except RecursionError:
+            return None
+        # the callee reads the caller's *current* attribute values: ('attr', <argument>, name) -> caller's env entry
+        amap_keys = {}
+        pos_names = [x.arg for x in pos]
+        off0 = 1 if len(t[2]) == len(e.args) + 1 else 0
+        if off0 and pos_names and self.param_names and isinstance(e.func, ast.Attribute):
+            fv0 = e.func.value
+            k00 = self.param_names[0] if (isinstance(fv0, ast.Call) and isinstance(fv0.func, ast.Name) and fv0.func.id == "super") else self.key_of(fv0)
+            if k00:
+                amap_keys[pos_names[0]] = k00
+        for i, an in enumerate(e.args):
+            k = self.key_of(an)
+            if k and i + off0 < len(pos_names):
+                amap_keys[pos_names[i + off0]] = k
+        mapping = {}
+        for pname, ckey in amap_keys.items():
+            base = amap.get(pname)
+            if base is None:
+                continue
+            for k, v in st.env.items():
+                if k.startswith(ckey + ".") and "." not in k[len(ckey) + 1:]:
+                    at = ("attr", base, k[len(ckey) + 1:])
+                    if v != at:
+                        mapping[at] = v
+
+        def here(x):
+            return replace(x, mapping) if mapping else x
+
+        def here_pc(pc):
+            return tuple((here(c), tr) for c, tr in pc) if mapping else pc
+        rets = [(here_pc(pc), here(tm), State({k: here(v) for k, v in rst.env.items()}, here_pc(rst.pc)) if mapping else rst) for pc, tm, node, rst in sub.returns]
+        for pc, exc, node, rst in sub.raises:
+            self._inl.append(("raise", here_pc(pc), exc))
+        if not rets:
+            return ("top", f"{callee.qual} never returns")
+        # common prefix of the normal-return path conditions holds after the call
+        common = list(rets[0][0])
+        for pc, _tm, _r in rets[1:]:
+            k = 0
+            while k < len(common) and k < len(pc) and common[k] == pc[k]:
+                k += 1
+            common = common[:k]
+        self._inl.append(("normal", tuple(common), None))
+        value = here(sub.return_term()) if len(rets) > 1 else rets[0][1]
+        # side effects on the receiver / mutated arguments (single or agreeing final environments)
+        names = [x.arg for x in pos]
+        arg_keys = {}
+        off = 0
+        if len(t[2]) == len(e.args) + 1:      # receiver prepended
+            off = 1
+            fv = e.func.value if isinstance(e.func, ast.Attribute) else None
+            k0 = self.key_of(fv) if fv is not None and not (isinstance(fv, ast.Call)) else (self.param_names[0] if self.param_names else None)
+            if isinstance(fv, ast.Call) and isinstance(fv.func, ast.Name) and fv.func.id == "super":
+                k0 = self.param_names[0] if self.param_names else None
+            if k0 and names:
+                arg_keys[names[0]] = k0
+        for i, an in enumerate(e.args):
+            k = self.key_of(an)
+            if k and i + off < len(names):
+                arg_keys[names[i + off]] = k
+        envs = [r[2].env for r in rets]
+        for pname, ckey in arg_keys.items():
+            keys = set()
+            for env in envs:
+                keys |= {k for k in env if k == pname or k.startswith(pname + ".")}
+            for k in keys:
+                vals = [env.get(k) for env in envs]
+                base = amap.get(pname)
+                if k == pname:
+                    if all(v is not None and v != base for v in vals) and all(v == vals[0] for v in vals) and vals[0][0] in ("mut", "store", "bin"):
+                        st.env[ckey] = vals[0]
+                    continue
+                if all(v is not None for v in vals) and all(v == vals[0] for v in vals):
+                    st.env[ckey + k[len(pname):]] = vals[0]
+                elif any(v is not None for v in vals):
+                    cur = st.env.get(ckey + k[len(pname):], ("attr", st.env.get(ckey, ("param", ckey)), k[len(pname) + 1:]))
+                    acc = None
+                    for (pc, _tm, _r), v in zip(rets, vals):
+                        v = v if v is not None else cur
+                        acc = v if acc is None else ("ite", pc_term(pc), v, acc) if v != acc else acc
+                    st.env[ckey + k[len(pname):]] = acc
+        return value
+
+    def _dyn_call(self, v, args, kwargs) -> Term:
+        def leaves(x):
+            return leaves(x[2]) + leaves(x[3]) if x[0] == "ite" else [x]
+        if all(x[0] == "attr" and x[1][0] == "param" for x in leaves(v)):
+            return _bound_method_call(self, v, args, kwargs)
+        return ("call", ("dyn", v), args, kwargs)
+
+    def _call0(self, e: ast.Call, st: State) -> Term:
         args = tuple(self.ev(a, st) for a in e.args)
         kwargs = tuple((k.arg or "**", self.ev(k.value, st)) for k in e.keywords)
         f = e.func
@@ -690,6 +953,10 @@ class TermAnalysis(Analysis):
                     and self.fn.kind in ("method", "classmethod", "property", "setter"):
                 target = self.prog.lookup_method(self.cls, f.attr)
                 if target is not None:
+                    if target.kind == "staticmethod":
+                        return ("call", ("func", target.qual), args, kwargs)
+                    if target.kind == "classmethod" and self.fn.kind != "classmethod":
+                        return ("call", ("func", target.qual), (("global", self.cls.qual),) + args, kwargs)
                     return ("call", ("func", target.qual), (recv,) + args, kwargs)
             return ("call", ("meth", recv, f.attr), args, kwargs)
         if isinstance(f, ast.Name):
@@ -699,7 +966,7 @@ class TermAnalysis(Analysis):
                     q = v[1]
                     kind = "func" if (q in self.prog.funcs or q in self.prog.classes) else "ext"
                     return ("call", (kind, q), args, kwargs)
-                return ("call", ("dyn", v), args, kwargs)
+                return self._dyn_call(v, args, kwargs)
             g = self._global(f.id)
             if g[0] == "global":
                 q = g[1]
@@ -707,6 +974,25 @@ class TermAnalysis(Analysis):
                 return ("call", (kind, q), args, kwargs)
             return ("call", ("dyn", g), args, kwargs)
         return ("call", ("dyn", self.ev(f, st)), args, kwargs)
+
+
+def _bound_method_call(ta, v, args, kwargs, depth=0):
+    """Call of a first-class callable value: a conditional choice distributes over the call, `self.m` of the analysed class
+    resolves like the direct call self.m(...)."""
+    if v[0] == "ite" and depth < 6:
+        return ("ite", v[1], _bound_method_call(ta, v[2], args, kwargs, depth + 1), _bound_method_call(ta, v[3], args, kwargs, depth + 1))
+    if v[0] == "attr" and v[1][0] == "param" and ta.cls is not None and ta.param_names and v[1][1] == ta.param_names[0] \
+            and ta.fn.kind in ("method", "classmethod", "property", "setter"):
+        target = ta.prog.lookup_method(ta.cls, v[2])
+        if target is not None and target.kind in ("method", "staticmethod", "classmethod"):
+            if target.kind == "staticmethod":
+                return ("call", ("func", target.qual), args, kwargs)
+            if target.kind == "classmethod" and ta.fn.kind != "classmethod":
+                return ("call", ("func", target.qual), (("global", ta.cls.qual),) + args, kwargs)
+            return ("call", ("func", target.qual), (v[1],) + args, kwargs)
+    if v[0] == "global" and (v[1] in ta.prog.funcs or v[1] in ta.prog.classes):
+        return ("call", ("func", v[1]), args, kwargs)
+    return ("call", ("dyn", v), args, kwargs)
 
 
 class TermEngine(Engine):
@@ -718,16 +1004,15 @@ class TermEngine(Engine):
         self.try_stack: List[List[str]] = []
         analysis.engine = self
 
-    def try_(self, s, state):
-        # every handler must be entered: statements of the body may raise each handled class
+    def try_body_enter(self, s):
+        # every handler must be entered: statements of the try *body* may raise each handled class
         names = []
         for h in s.handlers:
             names += self._htypes(h)
         self.try_stack.append(names)
-        try:
-            return super().try_(s, state)
-        finally:
-            self.try_stack.pop()
+
+    def try_body_exit(self, s):
+        self.try_stack.pop()
 
     def loop(self, s, state) -> Completions:
         widened = self.a.widen_loop(s, state)
@@ -795,11 +1080,12 @@ class Summary:
 _CACHE: Dict[tuple, Summary] = {}
 
 
-def summarize(prog: Program, fn: FuncInfo, args: Optional[Dict[str, Term]] = None) -> Summary:
+def summarize(prog: Program, fn: FuncInfo, args: Optional[Dict[str, Term]] = None, depth: int = 0) -> Summary:
     key = (id(prog), fn.qual, fn.kind, tuple(sorted((args or {}).items())))
     if key in _CACHE:
         return _CACHE[key]
     ta = TermAnalysis(prog, fn, args)
+    ta.inline_depth = depth
     eng = TermEngine(prog, fn, ta)
     comp = eng.run(ta.initial())
     s = Summary(fn, ta, comp, eng.loops)
